@@ -2,10 +2,11 @@ import Bpmn.Props.C20
 import Bpmn.Gen.C20
 /-! C20 instantiated at the facts extracted from the current /repo tree.
 
-`snoNewSerialised` and `fallbackCounterAtomic` select a side of a dichotomy that is proved for both values, so this
-module type-checks whichever way the code is (a repaired `SnoGenerator.New` turns the witness into the uniqueness
-theorem without any alarm); it stops type-checking only when a fact is `none` (construct not found) or when one of
-the two facts the model hard-wires (restore applies the snapshot, the fallback prefix comes from the clock) moved. -/
+`snoNewSerialised`, `fallbackCounterAtomic` and `fallbackPrefixSerial` each select a side of a dichotomy that is proved
+for both values, so this module type-checks whichever way the code is (a repaired `SnoGenerator.New`, or a serial
+number added to the fallback prefix, turns the witness into the uniqueness theorem without any alarm); it stops
+type-checking only when a fact is `none` (construct not found) or when one of the two facts the model hard-wires
+(restore applies the snapshot, the fallback prefix contains a clock reading) moved. -/
 namespace Bpmn.Props.C20
 open Bpmn.Model.IdGen
 
@@ -25,10 +26,33 @@ theorem current_sno : SnoClaimAt Bpmn.Gen.C20.snoNewSerialised := snoClaimAt_som
 
 theorem current_fallback : FallbackClaimAt Bpmn.Gen.C20.fallbackCounterAtomic := fallbackClaimAt_some _
 
+def FallbackPrefixClaimAt : Option Bool → Prop
+  | some b => FallbackPrefixClaim b
+  | none => False
+
+theorem fallbackPrefixClaimAt_some (b : Bool) : FallbackPrefixClaimAt (some b) := fallback_prefix_dichotomy b
+
+/-- clock-only prefix: the same-clock witness; prefix with serial number: uniqueness across all generators of a
+program for arbitrary clock readings -/
+theorem current_fallback_prefix : FallbackPrefixClaimAt Bpmn.Gen.C20.fallbackPrefixSerial :=
+  fallbackPrefixClaimAt_some _
+
+/-- the whole statement at the extracted facts: proved when all three are as required, refuted otherwise -/
+def StatementAt : Option Bool → Option Bool → Option Bool → Prop
+  | some a, some b, some c => if (a && b && c) = true then C20_statementFor a b c else ¬ C20_statementFor a b c
+  | _, _, _ => False
+
+theorem statementAt_some (a b c : Bool) : StatementAt (some a) (some b) (some c) := by
+  cases a <;> cases b <;> cases c <;> simp only [StatementAt, Bool.and_true, Bool.and_false, Bool.false_and,
+    Bool.true_and, Bool.false_eq_true, if_true, if_false] <;> simp [C20_decided]
+
+theorem current_statement : StatementAt Bpmn.Gen.C20.snoNewSerialised Bpmn.Gen.C20.fallbackCounterAtomic
+    Bpmn.Gen.C20.fallbackPrefixSerial := statementAt_some _ _ _
+
 /-- the model's `Ev.restore` continues from the snapshot, as `RestoreIdGenerator` does -/
 theorem current_restore_applies_snapshot : Bpmn.Gen.C20.snoRestoreAppliesSnapshot = some true := by decide
 
-/-- the model's `fbNew` takes the prefix from a clock reading, as `NewFallbackGenerator` does -/
+/-- the model's prefix contains a creation-time clock reading, as `NewFallbackGenerator`'s does -/
 theorem current_fallback_prefix_from_clock : Bpmn.Gen.C20.fallbackPrefixFromClock = some true := by decide
 
 end Bpmn.Props.C20
